@@ -1326,7 +1326,12 @@ pub struct DirectVariableIdentifier {
 
 impl Located for DirectVariableIdentifier {
     fn span(&self) -> SourceSpan {
-        self.span.clone()
+        // The position of the declaration is the position of its symbolic
+        // name when it has one (the parser does not record another one).
+        match &self.name {
+            Some(name) => name.span(),
+            None => self.span.clone(),
+        }
     }
 }
 
